@@ -6,7 +6,7 @@ import ast
 from sa import flow
 from sa.model import AnalysisError, dotted, unparse
 from sa.rules import LEVEL_TEXT, rule
-from sa.rules.util import is_self_attr, iter_body_nodes
+from sa.rules.util import callee, closure_text, is_self_attr, iter_body_nodes
 
 LEVEL_TEXT["C18"] = (
     "Decides structural necessary conditions of C18: reader filters only for null-safe operators and fully translated "
@@ -35,8 +35,23 @@ LEVEL_TEXT["C17"] = (
 def r18a(ctx):
     model = ctx.model
     mod, fn = model.func("io.parquet", "to_parquet")
-    defs = flow.Defs(fn)
+    host, guard_stmt_in_caller = fn, None
     loops = [n for n in ast.walk(fn) if isinstance(n, ast.For) and "find_operations(ReadParquet)" in ast.unparse(n.iter)]
+    if not loops:
+        # the guard may have been extracted into a private helper called from to_parquet
+        for c in (x for x in ast.walk(fn) if isinstance(x, ast.Call)):
+            t = callee(model, mod, None, c)
+            if t is None:
+                continue
+            sub = [n for n in ast.walk(t[2]) if isinstance(n, ast.For) and "find_operations(ReadParquet)" in ast.unparse(n.iter)]
+            if sub:
+                host, loops = t[2], sub
+                st = c
+                while not isinstance(st, ast.stmt):
+                    st = st._parent
+                guard_stmt_in_caller = st
+                break
+    defs = flow.Defs(host)
     if not loops:
         ctx.bad("io.parquet.to_parquet:overwrite-guard", mod.loc(fn), "to_parquet no longer scans the query for ReadParquet operations before overwriting")
         return
@@ -68,7 +83,8 @@ def r18a(ctx):
         ctx.unclassified("io.parquet.to_parquet:rm-after-guard", mod.loc(fn), "no fs.rm call")
     for i, rm in enumerate(rms):
         p = flow.point_of(fn, rm)
-        good = p is not None and any(st is loop for st in p.preceding)
+        anchor = guard_stmt_in_caller if guard_stmt_in_caller is not None else loop
+        good = p is not None and any(st is anchor for st in p.preceding)
         (ctx.ok if good else ctx.bad)(f"io.parquet.to_parquet:rm-after-guard#{i}", mod.loc(rm), "directory is removed only after the guard loop completed" if good else "fs.rm(path, recursive=True) is reachable without completing the read-operation guard loop")
 
 
@@ -161,7 +177,7 @@ def r17a(ctx):
     lowered = False
     if len(roots) == 1:
         v = defs.single_value(next(iter(roots)), t)
-        lowered = v is not None and "lower_completely()" in ast.unparse(v)
+        lowered = v is not None and "lower_completely()" in closure_text(model, fb.module, fb, v, depth=1)
     good = len(roots) == 1 and lowered
     (ctx.ok if good else ctx.bad)("_collection.FrameBase.__dask_postpersist__", fb.module.loc(t), "meta, divisions, keys and name all come from the lowered expression" if good else f"the rebuild arguments come from {sorted(roots)} which is not the lowered expression (lower_completely()): __dask_graph__/__dask_keys__ describe the lowered plan, so the FromGraph rebuilt after dask.persist() aliases keys the persisted graph does not contain")
     order = [ast.unparse(a) for a in args.elts]
@@ -171,6 +187,19 @@ def r17a(ctx):
     good = len(order) == len(params) - 1 and all(role.get(p, "") in o for p, o in zip(params[1:], order))
     (ctx.ok if good else ctx.bad)("_collection.FrameBase.__dask_postpersist__:argument-order", fb.module.loc(t), f"matches FromGraph._parameters[1:] = {params[1:]}" if good else f"arguments {order} do not line up with FromGraph._parameters[1:] = {params[1:]}")
     ly = model.method(fg, "_layer", own=True).node
-    txt = ast.unparse(ly)
-    good = "enumerate(self.operand('keys'))" in txt and "dsk[self._name, part] = k" in txt.replace("(self._name, part)", "self._name, part")
+    ldefs = flow.Defs(ly)
+    good = False
+    for loop in (n for n in ast.walk(ly) if isinstance(n, ast.For)):
+        it = ldefs.expand(loop.iter, at=loop)
+        if not (isinstance(it, ast.Call) and dotted(it.func) == "enumerate" and it.args and ast.unparse(it.args[0]) == "self.operand('keys')"):
+            continue
+        if not (isinstance(loop.target, ast.Tuple) and len(loop.target.elts) == 2 and all(isinstance(e, ast.Name) for e in loop.target.elts)):
+            continue
+        pos, key = (e.id for e in loop.target.elts)
+        for st in ast.walk(loop):
+            if isinstance(st, ast.Assign) and isinstance(st.targets[0], ast.Subscript) and isinstance(st.targets[0].slice, ast.Tuple):
+                k = st.targets[0].slice
+                pref = ldefs.expand(k.elts[0], at=st)
+                if ast.unparse(pref) == "self._name" and len(k.elts) == 2 and ast.unparse(k.elts[1]) == pos and ast.unparse(st.value) == key:
+                    good = True
     (ctx.ok if good else ctx.bad)("io.io.FromGraph._layer:alias", fg.module.loc(ly), "(self._name, i) -> i-th imported key" if good else "FromGraph._layer no longer aliases (self._name, i) to the i-th key of the imported graph")
